@@ -17,6 +17,7 @@ binding: (a) TLC emits every case (ps, d0, g).  The harness replaces the module 
          (b) behaviours of UdpRepeatLoop (exhaustive tree + simulation) are replayed on two real nodes (own and
              foreign sender) and the recorded traces are validated by TLC (UdpRepeatLoopTrace.tla).
 Parameter values are the ones CONFIGURED in the real module (read at run time and written into the generated cfg).
+time.time() is stubbed to 1000.0 s (offsets are exact to well below a microsecond); offsets are clamped to +-1000 s.
 Clause `reference` (queued offsets = Schedule(d0, g) exactly) is stronger than the statement; a case failing only
 this clause is recorded as a note, not as a violation.  Clauses foreign_* of part (b) are a vacuity guard only.
 """
@@ -35,6 +36,7 @@ from verif import tracecheck
 from verif.tlc import SPEC_DIR, MachineryError, json_lines, run_tlc
 
 NOW = 1000.0          # value of the stubbed time.time() when a message is queued
+LIMIT_US = 1_000_000_000
 IP = '127.0.0.1'
 PORT = 37021
 PROPERTY_CLAUSES = ('param_set', 'draw_initial_delay', 'draw_first_gap', 'count', 'initial_delay', 'first_gap',
@@ -317,7 +319,7 @@ def run_case(env: Env, node: Node, case: dict, kind: str, with_tx: bool) -> dict
     rec = {'ps': ps, 'kind': kind, 'd0': case['d0'], 'g': case['g'], 'cfg': params_dict(node.last_params),
            'draw': {'d0lo': env.rnd.calls[0][0], 'd0hi': env.rnd.calls[0][1],
                     'glo': env.rnd.calls[1][0], 'ghi': env.rnd.calls[1][1]},
-           'off': [round((e.send_time - NOW) * 1e6) for e in entries], 'known': True, 'loop': 'ignored', 'tx': -1}
+           'off': [_us(e.send_time - NOW) for e in entries], 'known': True, 'loop': 'ignored', 'tx': -1}
     if entries:
         msg = entries[0].msg
         rec['ps'] = 'multicast' if msg.addr == env.mc_addr else 'unicast'
@@ -328,6 +330,11 @@ def run_case(env: Env, node: Node, case: dict, kind: str, with_tx: bool) -> dict
             rec['tx'] = node.transmit_all(mid)
     node.drain()
     return rec
+
+
+def _us(seconds: float) -> int:
+    """Microseconds; clamped to +-1000 s (far outside any envelope) so that TLC's 32 bit integers cannot overflow."""
+    return max(-LIMIT_US, min(LIMIT_US, round(seconds * 1e6)))
 
 
 def probe_ranges(env: Env, node: Node) -> dict:
@@ -398,6 +405,11 @@ def schedule_part(run, env: Env, only_cases: list | None = None):
         cases = json_lines(res.stdout, 'CASE')
         if len(cases) != res.distinct or not cases:
             raise MachineryError(f'TLC visited {res.distinct} cases but emitted {len(cases)}')
+        if step == 1:
+            want = sum((env.params(ps)['maxInitial'] + 1) * (env.params(ps)['max'] - env.params(ps)['min'] + 1)
+                       for ps in KINDS)
+            if len(cases) != want:
+                raise MachineryError(f'exhaustive domain has {want} cases, TLC emitted {len(cases)}')
         run.note('schedule_domain', {'step': step, 'cases': len(cases), 'exhaustive': step == 1})
     else:
         cases = only_cases
